@@ -180,6 +180,10 @@ func init() {
 				alpha = append(alpha, fmt.Sprintf("bulk %s %s", l, s))
 			}
 		}
+		// a failing loader that hands back a map as well (volunteered key / partial): a few key lists suffice
+		for _, l := range []string{"1", "1,2", "2,3", "3,1,3"} {
+			alpha = append(alpha, fmt.Sprintf("bulk %s errextra", l), fmt.Sprintf("bulk %s errpartial", l))
+		}
 		for _, k := range ks {
 			for _, o := range []string{"val", "err", "valerr", "nf", "panic"} {
 				alpha = append(alpha, fmt.Sprintf("load %d %s", k, o))
@@ -410,7 +414,7 @@ func init() {
 							fmt.Sprintf("get %d", k), fmt.Sprintf("inv %d", k), fmt.Sprintf("sra %d 10", k))
 					}
 					a = append(a, "bulk 1,2 full", "bulk 1,2 partial", "bulk 1,2 err", "bulkrefresh 1,2 full", "bulkrefresh 1,2 partial", "bulkrefresh 1,2 err", "bulkrefresh 1,1 full",
-						"bulkrefresh 1,2 panic", "bulk 1,2 panic", "refresh 1 panic", "load 1 panic",
+						"bulkrefresh 1,2 panic", "bulk 1,2 panic", "refresh 1 panic", "load 1 panic", "bulk 1,2 errextra", "bulkrefresh 1,2 errextra",
 						"adv 39", "adv 40", "adv 41", "adv 100")
 					if ex == "deferred" {
 						a = append(a, "runexec")
